@@ -1,4 +1,4 @@
-import ScrutModel.Lemmas.ConfigRender
+import ScrutModel.Lemmas.OneLiner
 /-!
 # C17 — Configuration survives being written out and read back
 
@@ -9,23 +9,33 @@ flow-context scalar scanning, the 1024-byte simple-key rule, serde_yaml's scalar
 typed layer of `TestCaseConfig`). All of it is tied to the real code on every run by the
 correspondence harness (`harness/src/yamlcfg.rs`).
 
-Proved here for ALL values: durations (`C17_duration_roundtrip`) and quoted strings
-(`C17_quote_roundtrip`, `C17_quoted_scalar_in_context`) — the two "for-all-values" parts of the
-property where hand-written formatting has to be an inverse of a parser.
+Proved here for ALL values:
+* durations (`C17_duration_roundtrip`) and quoted strings (`C17_quote_roundtrip`,
+  `C17_quoted_scalar_in_context`) — the two parts where hand-written formatting has to be an inverse
+  of a parser;
+* `C17_rendered_ast_reads_back`: the whole flow parser (reader check, line-break check, key/value
+  scanning, nested mapping, separators, 1024-byte key rule) reads back ANY list of rendered
+  `key: value` pieces whose plain scalars are tokens (`Tok`: no `, [ ] { } : #`, no line break,
+  readable, valid first character, no trailing blank), whatever the quoted strings contain;
+* `C17_one_liner_scalars`: the full statement `parseFlow (toOneLiner c) = .ok c` for every
+  configuration over the keys output_stream, keep_crlf, timeout, detached, strip_ansi_escaping
+  (every subset, every duration).
 
 NOT proved (full-strength statement, kept visible):
 
     theorem C17_one_liner (c : Cfg) (h : Renderable c) : parseFlow (toOneLiner c) = .ok c
 
-where `Renderable` would have to require (because the REAL code violates the property otherwise,
-see `C17_fails_on_unreadable_char`, `C17_fails_on_long_name` and the harness oracle classes
-`C17:not-yaml-readable`, `C17:line-break-char`, `C17:long-key`): every character of every
-environment name/value and of the wait path is `readable` and not `isBreak`; the rendered
-environment names are at most 1024 UTF-8 bytes; plus the type invariants (`nanos < 10^9`,
-`secs < 2^64`, skip code in `i32`, distinct environment names). The general statement is checked
-by the harness on every subset of keys x value variants and on seeded random configurations
-through both the model (`parseFlow`) and the real `serde_yaml`; concrete instances are proved below
-by evaluation.
+where `Renderable` has to require (because the REAL code violates the property otherwise, see
+`C17_fails_on_long_name`, oracle class `C17:long-key`): the rendered environment names are at most
+1024 UTF-8 bytes; plus the type invariants (`nanos < 10^9`, `secs < 2^64`, skip code in `i32`,
+distinct environment names). By `C17_rendered_ast_reads_back` what is missing is only:
+(1) `Tok (intDigits i)` and `intOfText (intDigits i) = some i` (no leading zeros, value of the digits);
+(2) `isPlainSafe p → Tok p ∧ ¬ isNullText p` (character-order reasoning for names and paths);
+(3) `plainIsString (durText d)` for `wait: 2m 3s` (a formatted duration is not null/bool/number-like);
+(4) the typed layer for `wait: {timeout, path}` and `environment` (`envOf (envVal e) = e`).
+These configurations are covered by the harness (every key subset, the string alphabet in every
+position, random configurations) through the model and the real `serde_yaml`, and by the concrete
+instances below.
 -/
 namespace Scrut.Props.C17
 open Scrut.Dur Scrut.Yaml
@@ -50,6 +60,31 @@ theorem C17_quoted_scalar_in_context (s tail : List Char) :
     scanScalar (jsonQuote s ++ tail) = some (.quoted s, tail) :=
   scan_jsonQuote s tail
 
+/-- **C17 (the parser side, all rendered pieces)**: a list of `key: value` pieces (values: scalars
+or one nested mapping) whose plain scalars are tokens and whose keys render to at most 1024 bytes
+(`GoodKV`), joined with `, ` and wrapped in braces, passes the reader, contains no line break, is
+split into exactly these keys and values, and is handed to the typed layer `interp` unchanged.
+Quoted scalars may contain anything. -/
+theorem C17_rendered_ast_reads_back (a : Ast) (c : Cfg) (h : a.all GoodKV = true)
+    (hi : interp a = .ok c) : parseFlow (Ast.render a) = .ok c :=
+  parseFlow_render a c h hi
+
+/-- **C17 (scalar keys)**: every configuration that sets any subset of output_stream, keep_crlf,
+timeout, detached, strip_ansi_escaping — any stream, any booleans, any duration with
+`secs < 2^64`, `nanos < 10^9` — is read back from its one-line form exactly. -/
+theorem C17_one_liner_scalars (c : Cfg) (h : ScalarOnly c) : parseFlow (toOneLiner c) = .ok c :=
+  one_liner_scalars c h
+
+/-- all five scalar keys set, largest duration -/
+def scalarExample : Cfg :=
+  { outputStream := some .combined, keepCrlf := some false,
+    timeout := some (18446744073709551615, 999999999), detached := some true,
+    stripAnsi := some false }
+
+/-- non-vacuity of `ScalarOnly` -/
+example : ScalarOnly scalarExample :=
+  ⟨rfl, rfl, rfl, fun d hd => by cases hd; exact ⟨by decide, by decide⟩⟩
+
 /-- all eight keys set, values with quotes, backslash, braces, commas, `#`, colon, blanks, a
 control character and non-ASCII text -/
 def fullExample : Cfg :=
@@ -65,14 +100,20 @@ theorem C17_one_liner_example : parseFlow (toOneLiner fullExample) = .ok fullExa
 
 theorem C17_one_liner_empty : parseFlow (toOneLiner {}) = .ok {} := by rfl
 
-/-- a variable whose value is the DEL character (U+007F) -/
-def unreadableWitness : Cfg := { env := [(['K'], [Char.ofNat 127])] }
+/-- regression example for fix d9da776: values, a name and a path made of the characters that JSON
+leaves unescaped but a YAML stream rejects (U+007F, U+0080, U+009F, U+FFFE, U+FFFF) or folds as
+line breaks (U+0085, U+2028 and U+2029 between blanks) -/
+def unreadableExample : Cfg :=
+  { wait := some ⟨(1, 0), some [Char.ofNat 0x7f, '/', Char.ofNat 0x85]⟩,
+    env := [(['K'], [Char.ofNat 0x7f, Char.ofNat 0x80, Char.ofNat 0x9f, Char.ofNat 0xfffe, Char.ofNat 0xffff]),
+            (['L'], [' ', Char.ofNat 0x2028, ' ', Char.ofNat 0x85, ' ', Char.ofNat 0x2029, ' ']),
+            ([Char.ofNat 0x2028], ['x'])] }
 
-/-- **the real code violates C17 here**: `yaml_quoted` (serde_json) leaves U+007F, U+0080-U+009F,
-U+FFFE and U+FFFF unescaped, the YAML reader rejects them ("control characters are not allowed"):
-the rendered configuration cannot be read back at all. -/
-theorem C17_fails_on_unreadable_char :
-    parseFlow (toOneLiner unreadableWitness) = .error := by rfl
+set_option maxRecDepth 100000 in
+/-- since d9da776 `yaml_quoted` writes these characters as `\uXXXX`: the configuration reads back
+(before the fix the reader rejected the text or folded the line breaks into blanks) -/
+theorem C17_one_liner_unreadable_chars :
+    parseFlow (toOneLiner unreadableExample) = .ok unreadableExample := by rfl
 
 /-- a variable name of 1025 letters -/
 def longNameWitness : Cfg := { env := [(List.replicate 1025 'a', ['v'])] }
